@@ -223,3 +223,41 @@ func H_C06_specChain() {
 		vAssert("spec-chain-descending", err2 == nil && c2 == 1)
 	}
 }
+
+// numeric identifiers far beyond uint64: k and k (or k+1) symbolic digits after a common "rc." prefix
+//
+//verif:harness C06 quick k=19..21 extra=0..1
+func H_C06_longNumeric(k int, extra int) {
+	da, db := vBytes("da", k), vBytes("db", k+extra)
+	for i := 0; i < k; i++ {
+		vAssume(da[i] >= '0' && da[i] <= '9')
+	}
+	for i := 0; i < k+extra; i++ {
+		vAssume(db[i] >= '0' && db[i] <= '9')
+	}
+	vAssume(da[0] != '0' && db[0] != '0')
+	a := "rc." + string(da)
+	b := "rc." + string(db)
+	want := 0
+	if extra > 0 {
+		want = -1 // fewer digits, no leading zeros: smaller
+	} else {
+		decided := false
+		for i := 0; i < k; i++ {
+			if !decided && da[i] != db[i] {
+				decided = true
+				if da[i] < db[i] {
+					want = -1
+				} else {
+					want = 1
+				}
+			}
+		}
+	}
+	vAssert("numeric-identifiers-compare-numerically", DefaultComparePreRelease(a, b) == want && DefaultComparePreRelease(b, a) == -want)
+	x := Ver{Major: 1, PreRelease: a}
+	y := Ver{Major: 1, PreRelease: b}
+	vAssert("ver-compare", x.Compare(y) == want)
+	vReach("less", want < 0)
+	vReach("equal", want == 0)
+}
